@@ -4,10 +4,11 @@ CONSTANTS
   Ints <- WideInts
   Strs <- WideStrs
   Tags <- WideTags
+  Simples <- AllSimples
   MaxStack = 6
   MaxNodes = 12
   MaxDepth = 5
   MaxArr = 4
   MaxPairs = 3
   AllowWrap = TRUE
-INVARIANTS TypeOK RoundTrip SelfDelimiting NoItemIsAPrefix PrefixFree CanonicalEncoding ReEncode HeadIsShortest WrapIsExact Emit
+INVARIANTS Theorems Emit
